@@ -267,6 +267,47 @@ def main(chk):
     chk.count(key3)
     if bad:
       chk.violation(key3, bad, beh)
+    # ---------------- ... and inside bridge.Modules, two levels deep: Outer (compact) -> Inner (compact) -> wrapped Linen module
+    key4 = key2.replace('ToLinen', 'bridge-module-2-deep')
+    try:
+      bad = None
+
+      class BInner(bridge.Module):
+        @bridge.compact
+        def __call__(self):
+          return bridge.linen_in_bridge_mdl(Layer(kids), name='lin')()
+
+      class BOuter(bridge.Module):
+        @bridge.compact
+        def __call__(self):
+          return BInner(name='inner')()
+      bo = BOuter()
+      bvars = bo.init(jax.random.key(0))
+      for i, c in enumerate(beh['calls']):
+        if c['mutable']:
+          bout, upd = bo.apply(bvars, mutable=['batch_stats'])
+          bvars = {**bvars, 'batch_stats': upd['batch_stats']}
+        else:
+          bout = bo.apply(bvars)
+        if float(bout) != float(c['out']):
+          bad = f'call {i + 1} (mutable={c["mutable"]}): the wrapped Linen module two bridge.Modules deep returned {float(bout)}, specification {c["out"]}'
+          break
+        node = bvars['batch_stats']['inner']['lin']
+        lc_ = {}
+        for pth in layers:
+          n2 = node
+          for k in pth:
+            n2 = n2[k]
+          lc_[tuple(pth)] = float(np.asarray(n2['c'].unbox() if hasattr(n2['c'], 'unbox') else n2['c']))
+        want = {tuple(pth): float(cnt) for pth, cnt in c['refcnt']}
+        if lc_ != want:
+          bad = f'call {i + 1}: counters under inner/lin {lc_}, specification {want} (mutable-collection updates must reach the caller)'
+          break
+    except Exception as e:
+      bad = f'raised {type(e).__name__}: {str(e)[:200]}'
+    chk.count(key4)
+    if bad:
+      chk.violation(key4, bad, beh)
   chk.sample({'spec': 'Bridge', 'history': {k: res['exports'][-1][k] for k in ('shape', 'calls')}})
 
   # ---- Variable subclasses keep their own collection; rng state round-trips through mutable outputs
@@ -315,11 +356,49 @@ def main(chk):
 
   # name <-> type registry is a partial bijection
   from flax.nnx import variablelib
-  for typ in (nnx.Param, nnx.BatchStat, nnx.Cache, nnx.Intermediate):
-    name = variablelib.variable_name_from_type(typ)
+  class FineStat(nnx.BatchStat):      # a user type, registered before its own user-defined base below
+    pass
+
+  class Stat(nnx.Variable):
+    pass
+
+  class FinerStat(Stat):
+    pass
+  names = {}
+  for typ in (nnx.Param, nnx.BatchStat, nnx.Cache, nnx.Intermediate, FineStat, FinerStat, Stat, nnx.Variable, nnx.RngKey, nnx.RngCount):
+    name = variablelib.variable_name_from_type(typ, allow_register=True)
     chk.count(('C18:registry', name))
     if variablelib.variable_type_from_name(name) is not typ:
-      chk.violation('C18:registry:' + name, f'variable_type_from_name(variable_name_from_type({typ.__name__})) is not the type', {})
+      chk.violation('C18:registry:' + typ.__name__, f'variable_type_from_name(variable_name_from_type({typ.__name__})) = '
+                                                    f'{variablelib.variable_type_from_name(name).__name__} (collection name {name!r})', {})
+    if name in names:
+      chk.violation('C18:registry:' + typ.__name__, f'{typ.__name__} and {names[name]} share the collection name {name!r}', {})
+    names[name] = typ.__name__
+  # ... and a ToLinen module exposes every Variable under the collection of its own type, base types and subtypes side by side
+  class Typed(nnx.Module):
+    def __init__(self, rngs):
+      self.p = nnx.Param(jnp.asarray(1.0))
+      self.v = nnx.Variable(jnp.asarray(2.0))
+      self.s = Stat(jnp.asarray(3.0))
+      self.f = FinerStat(jnp.asarray(4.0))
+
+    def __call__(self):
+      self.v.value = self.v.value + 10.0
+      self.f.value = self.f.value + 100.0
+      return self.p.value + self.v.value + self.s.value + self.f.value
+  chk.count('C18:ToLinen:base-and-sub-types')
+  try:
+    tl2 = bridge.to_linen(Typed)
+    vs2 = tl2.init(jax.random.key(0))
+    cols = {c: sorted(t) for c, t in vs2.items() if c != 'nnx'}
+    want_cols = {variablelib.variable_name_from_type(t): [n] for t, n in ((nnx.Param, 'p'), (nnx.Variable, 'v'), (Stat, 's'), (FinerStat, 'f'))}
+    o2, upd2 = tl2.apply(vs2, mutable=[variablelib.variable_name_from_type(nnx.Variable)])
+    if cols != want_cols or float(o2) != 20.0 + 100.0 or sorted(upd2) != [variablelib.variable_name_from_type(nnx.Variable)] or \
+       float(jax.tree_util.tree_leaves(upd2)[0]) != 12.0:
+      chk.violation('C18:ToLinen:base-and-sub-types', f'collections {cols} (expected {want_cols}); output {float(o2)} (120.0); '
+                                                      f'mutable=[Variable] returns {jax.tree_util.tree_map(float, upd2)}', {})
+  except Exception as e:
+    chk.violation('C18:ToLinen:base-and-sub-types', f'raised {type(e).__name__}: {str(e)[:200]}', {})
   # rng use inside a wrapped Linen module
   m = bridge.ToNNX(Layer((), use_rng=True), rngs=nnx.Rngs(dropout=1, params=0))
   bridge.lazy_init(m)
